@@ -176,18 +176,27 @@ def allRejectBytes (p : Patch) (fmt : RejectFormat) : Nat → List Hunk → Exce
     | .error e => .error e
     | .ok b => (allRejectBytes p fmt (n + 1) hs).map (b ++ ·)
 
+/-- `make_way_for`: a file of our own making (the rejects, the empty backup of a file which did not exist) takes the place of
+    whatever has its name; it is neither written through a symbolic link nor into a file which may have other names (D95, D101) -/
+def makeWayFor (p : Bytes) : DM Unit := do
+  if (← fsIsSymlink p) || (← fsIsRegular p) then
+    let s ← get
+    doOp (.unlink (absPath s p))
+
 /-- open the reject file (`RejectFiles::open_mode_for`: the first rejects written to a file in this run replace what is in it,
     later ones are added: fopen(path, "a") does not truncate, and creates the file if it is gone) -/
-def openRejects (rej : Bytes) : DM Unit := do
+def openRejects (o : Options) (rej : Bytes) : DM Unit := do
   let s ← get
   if s.rejWritten.contains rej then
     if !(← fsExists rej) then opCreat rej
   else
     set { s with rejWritten := s.rejWritten ++ [rej] }
+    -- a file which we were told to write the rejects to is whatever it is (/dev/stderr is a symbolic link)
+    if o.rejectFile.isEmpty then makeWayFor rej
     opCreat rej
 
-def writeRejects (rej : Bytes) (bytes : Bytes) : DM Unit := do
-  openRejects rej
+def writeRejects (o : Options) (rej : Bytes) (bytes : Bytes) : DM Unit := do
+  openRejects o rej
   opWrite rej bytes
 
 /-- `refuse_to_patch` -/
@@ -198,7 +207,7 @@ def refuseToPatch (o : Options) (outputFile : Bytes) (p : Patch) : DM Unit := do
     let rej := rejectPath o outputFile
     emit (.failed p.hunks.length p.hunks.length true (some rej))
     ensureParentDirs rej
-    openRejects rej
+    openRejects o rej
     match allRejectBytes p o.rejectFormat 0 p.hunks with
     | .error e => throw e
     | .ok b => opWrite rej b
@@ -256,9 +265,10 @@ def makeBackupFor (o : Options) (p : Bytes) : DM Unit := do
   if !s.backedUp.contains bn then
     set { s with backedUp := s.backedUp ++ [bn] }
     ensureParentDirs bn      -- a prefix may put the backup in a directory of its own
-    if (← fsExists p) then opRename p bn else opCreat bn
+    if (← fsExists p) then opRename p bn else do makeWayFor bn; opCreat bn
 
-def isSymlinkMode (m : Nat) : Bool := (m &&& 0o120000) == 0o120000
+/-- `is_symlink(mode)`: all of the file type bits are compared (160000 is a submodule: D102) -/
+def isSymlinkMode (m : Nat) : Bool := (m &&& 0o170000) == 0o120000
 
 /-- `write_patched_result_to_file` -/
 def writePatchedResult (o : Options) (p : Patch) (outputFile : Bytes) (perm : PermResult) (shouldBackup : Bool) (content : Bytes) : DM Unit := do
@@ -395,7 +405,7 @@ def processSection (o : Options) (format : Format) : DM Bool := do
       let rej := rejectPath o outputFile
       emit (.failed r.failed patch.hunks.length r.skipped (some rej))
       ensureParentDirs rej
-      writeRejects rej r.rejBytes
+      writeRejects o rej r.rejBytes
     else emit (.failed r.failed patch.hunks.length r.skipped none)
   if o.outFile == [45] then
     modify fun s => { s with stdout := s.stdout ++ outBytes }
